@@ -165,6 +165,7 @@ def step_obligations(pid, tier, seed, check, mutating_only=False):
             c6, _ = cat('OO', 'c', 'BTree', 6, 2, 2)
             tpls += [s_ for s_ in shapes.stratify_large(c6, 2, 2) if s_ not in tpls and shapes.n_ranks(s_) <= 6]
         tpls += [v for v in (shapes.stale_variant(s_) for s_ in list(tpls)) if v is not None and shapes.n_ranks(v) <= (5 if tier == 'quick' else 7)]
+        tpls = [tp for i_, tp in enumerate(tpls) if tp not in tpls[:i_]]
         for fam in (['II', 'UU', 'LL', 'QQ'] if tier == 'quick' else ['II', 'UU', 'LL', 'QQ', 'IU', 'LQ']):
             for tp in tpls:
                 for hk in (0, 1):
